@@ -22,7 +22,8 @@ Inp(seq, pegin, iss, annexPresent, annexData, asset, value) ==
 InT == <<
   Inp(MaxSeq, "", NoIss, FALSE, By(1), <<"explicit", Hh(3)>>, <<"explicit", <<0, 0, 1, 2>> >>),
   Inp(<<0, 5>>, Hh(4), NoIss, FALSE, By(1), At0.assets[1], At0.values[1]),
-  Inp(<<64, 7>>, "", [NoIss EXCEPT !.amount = <<"explicit", <<0, 0, 0, 9>> >>], TRUE, By(1), <<"explicit", Hh(3)>>, <<"null">>),
+  \* new issuance, explicit amount, confidential inflation keys with a proof (mixed confidentiality)
+  Inp(<<64, 7>>, "", [NoIss EXCEPT !.amount = <<"explicit", <<0, 0, 0, 9>> >>, !.keys = At0.values[1], !.keys_proof = Rp(2), !.amount_proof = Rp(2)], TRUE, By(1), <<"explicit", Hh(3)>>, <<"null">>),
   Inp(<<32768, 3>>, "", [NoIss EXCEPT !.amount = At0.values[2], !.keys = At0.values[1], !.amount_proof = Rp(2), !.keys_proof = Rp(2)], FALSE, By(1), At0.assets[2], <<"explicit", Zero64>>),
   Inp(<<65535, 65534>>, "", [NoIss EXCEPT !.blinding = Hh(5), !.amount = <<"explicit", <<1, 0, 0, 0>> >>, !.keys = <<"explicit", <<0, 0, 0, 1>> >>], TRUE, By(3), <<"null">>, <<"null">>),
   Inp(<<0, 9>>, "", [NoIss EXCEPT !.blinding = Hh(5)], FALSE, By(1), <<"explicit", Hh(6)>>, At0.values[2])
